@@ -4,6 +4,10 @@ import json, os, subprocess
 ROOT = os.path.dirname(os.path.dirname(os.path.abspath(__file__)))
 TECH = "symbolic evaluation of the real Python source (own AST->z3 evaluator py2smt) + SMT (z3 5.1; cvc5/z3-4.8 cross-check in thorough tier), counterexamples replayed on the real code"
 CLAIMED = {
+    "C02": ("2. C02", "Every header codec (basic, common, traffic class, GN address, long/short PV, GBC/TSB/GUC/LS extended, BTP-A/B) is compared with an independently typed clause-9 layout table: encoders over all representable field values, decoders over all byte strings of the header length with defined enum values; every source operation (beacon, SHB, GBC/GAC x3 shapes, GUC, LS request) is evaluated with symbolic request/ego PV/MIB hop limit/sequence number and each emitted packet must equal basic|common|extended|payload octet for octet.",
+            "Payload lengths and lifetimes come from a stated finite menu (all octets symbolic); location table, geometry and greedy-forwarding decisions are free-valued stubs; forwarded packets are covered by C06 once built."),
+    "C04": ("2. C04", "For symbolic frames of every listed length the exact set of exception classes that can leave Router.gn_data_indicate (real decoders, real geometry function, failing upper layer) must be contained in the classes caught at the receive_callback call sites of RawLinkLayer.receive and the C-V2X callback loop (handler classes re-read from their ASTs); the two loops are evaluated with a scripted socket/queue: no Exception leaves them, the following frame is delivered, own/foreign-unicast frames are filtered.",
+            "Frame lengths are a finite menu (quick 8 lengths, thorough 0..100,160,400); security disabled; BaseException subclasses (KeyboardInterrupt) out of scope; the vendor C-V2X shared library is not executed (its loop function is read from source)."),
     "C20": ("2. C20", "Lifetime quantiser over every requested value 0..7 000 000 ms, all 256 lifetime codes, hop-limit selection for every transport type and RHL<=MHL reception check, each as SMT queries over the real functions; unsat = holds for all values in range.",
             "Float division in the quantiser is taken over the reals plus a binary64 lemma (thorough tier); link layer and location table stubbed as recorded in the evidence."),
 }
